@@ -1472,13 +1472,13 @@ Section Step.
         destruct P1 as (p2 & Q1 & Q2). exists p2. split; [exact Q1|]. intros Hx. exfalso.
         pose proof (TO t2 lt2 Hl2) as Hp2. rewrite Q1 in Hp2. cbn [pcinv] in Hp2. destruct Hp2 as (_ & Hb & _).
         rewrite (R_deq _ _ _ _ _ R0) in Hb. unfold before in Hb. rewrite <- Hx in Hb.
-        eapply nodup_not_firstn; eauto.
+        exact (nodup_not_firstn L _ _ HndL Hh' Hb).
     - intros b H1 H2. apply R_heap0; [rewrite <- Hsu|rewrite <- Hsf]; assumption.
     - intros b. rewrite Hsu. apply G_U0.
     - intros b. rewrite Hsf. apply G_F0.
     - intros b H. apply G_own0. rewrite <- Hsu. exact H.
     - intros t2 th2 b H Hb. apply nth_lset_case in H. destruct H as [(-> & -> & _)|(Hne & H)].
-      + assert (E : st b = SR t2) by (eapply G_R0; [exact Hth|unfold eff_rl in *; rewrite Hpc; exact Hb]).
+      + assert (E : st b = SR t) by (eapply G_R0; [exact Hth|unfold eff_rl in *; rewrite Hpc; exact Hb]).
         rewrite Hst; [exact E|congruence].
       + pose proof (G_R0 _ _ _ H Hb) as E. rewrite Hst; [exact E|congruence].
     - intros t2 th2 H. apply nth_lset_case in H. destruct H as [(-> & -> & _)|(Hne & H)]; [cbn [rgoto rt_rl]|]; eauto.
@@ -1487,7 +1487,7 @@ Section Step.
       unfold st'. destruct (N.eqb_spec (la l) a) as [E|E]; [exfalso|exact A].
       assert (l = pl hd) by (rewrite <- B, E; exact PB). subst l.
       destruct (in_skipn_nth _ _ _ Hl0) as (j & Hj & Hn).
-      assert (j = length (rg_deq c)) by (eapply nodup_idx; eauto). lia.
+      assert (j = length (rg_deq c)) by exact (nodup_idx L _ _ _ HndL Hn Hh). lia.
     - intros t2 th2 nd H Hp. apply nth_lset_case in H. destruct H as [(-> & -> & _)|(Hne & H)]; [discriminate Hp|].
       destruct (G_priv0 _ _ _ H Hp) as [A B]. split; [|exact B].
       unfold st'. destruct (N.eqb_spec (pa nd) a) as [E|E]; [exfalso|exact A].
@@ -1509,4 +1509,471 @@ Section Step.
         rewrite Hst; [exact Hx2|congruence].
   Qed.
 
+
+  (* ---- the successful link CAS *)
+  Lemma in_skipn_app {A} (l x : list A) k a : In a (skipn k (l ++ x)) -> In a (skipn k l) \/ In a x.
+  Proof.
+    rewrite skipn_app. intros H. apply in_app_or in H. destruct H as [H|H]; [left; exact H|right].
+    revert H. generalize (k - length l)%nat. intros n. revert x. induction n as [|n IH]; intros x H; [exact H|].
+    destruct x as [|y x]; [destruct H|]. right. apply IH. exact H.
+  Qed.
+
+  Lemma case_ReCasLink_ok nd tl : rt_pc th = ReCasLink nd tl -> pa (rn_next (rget (r_heap c) (pa tl))) = 0 ->
+    SGoal (mkRS (rset_next (r_heap c) (pa tl) nd) (r_head c) (r_tail c) (r_free c) (r_bump c) (r_fmax c)
+                (lset_nth (r_thr c) t (rgoto th (ReCasSwing nd tl)))
+                (r_lid c) (r_own c) (rg_enq c ++ [(t, rn_val (rget (r_heap c) (pa nd)))]) (rg_deq c)).
+  Proof.
+    intros Hpc Hz. pose proof Hpcr as Hpcl. rewrite Hpc in Hpcl. cbn [pcr apc] in Hpcl.
+    assert (Hpr : prot0 (rt_pc th) = Some tl) by (rewrite Hpc; reflexivity).
+    destruct (prot_facts tl Hpr) as (PA & PB & PC & PD & PE & PF).
+    assert (Hlz : pl (rn_next (rget (r_heap c) (pa tl))) = 0).
+    { destruct PF as [[_ ?]|(? & _)]; congruence. }
+    assert (Hgnd : gp la (r_lid c) nd) by (apply gp_of; rewrite Hpc; left; reflexivity).
+    assert (Hgtl : gp la (r_lid c) tl) by (apply gp_of; rewrite Hpc; right; left; reflexivity).
+    destruct (G_priv _ _ _ _ _ R t th nd Hth ltac:(rewrite Hpc; reflexivity)) as (NA & NB).
+    assert (NC : hget (s_heap s) (pl nd) = mkNode (rn_val (rget (r_heap c) (pa nd))) (pl (rn_next (rget (r_heap c) (pa nd))))).
+    { rewrite <- NB. apply (R_heap _ _ _ _ _ R); congruence. }
+    destruct (G_own _ _ _ _ _ R (pa nd) ltac:(congruence)) as (_ & ND & _). rewrite NB in ND.
+    destruct (gp_nonnull _ _ _ Hgnd ND) as (NE & NF).
+    destruct (G_own _ _ _ _ _ R (pa tl) PD) as (_ & TD & TE). rewrite PB in TD, TE.
+    set (v := rn_val (rget (r_heap c) (pa nd))) in *.
+    assert (Habs : lstep s t = Some (mkLS (set_next (s_heap s) (pl tl) (pl nd)) (s_head s) (s_tail s) (s_fresh s)
+                                          (lset_nth (s_thr s) t (lgoto lt (QeCasSwing (pl nd) (pl tl))))
+                                          (g_enq s ++ [(t, v)]) (g_deq s), None)).
+    { absstep Hlt Hpcl. rewrite PE. cbn [n_next]. rewrite Hlz, N.eqb_refl, NC. reflexivity. }
+    set (s' := mkLS (set_next (s_heap s) (pl tl) (pl nd)) (s_head s) (s_tail s) (s_fresh s)
+                    (lset_nth (s_thr s) t (lgoto lt (QeCasSwing (pl nd) (pl tl)))) (g_enq s ++ [(t, v)]) (g_deq s)) in *.
+    destruct (step_tinv _ _ _ _ _ HI HT Habs) as (X & HI' & HT' & HX).
+    assert (EX : X = [pl nd]).
+    { destruct HX as [->|(th0 & nd0 & tl0 & H1 & H2 & _ & ->)].
+      - exfalso. pose proof HI as (G & _). pose proof HI' as (G' & _).
+        pose proof (g_lenE _ _ _ _ _ _ _ G) as E1. pose proof (g_lenE _ _ _ _ _ _ _ G') as E2.
+        cbn [s' g_enq] in E2. rewrite app_length, app_nil_r in E2. cbn [length] in E2. lia.
+      - rewrite Hlt in H1. injection H1 as <-. rewrite Hpcl in H2. injection H2 as <- _. reflexivity. }
+    subst X.
+    exists 1%nat, s', (L ++ [pl nd]). split; [eapply lrun1; eauto|split; [exact HI'|split; [exact HT'|]]].
+    exists la, st. pose proof R as R0. destruct R.
+    constructor; cbn [s' r_head r_tail r_lid rg_enq rg_deq r_thr r_heap r_own r_free r_bump r_fmax
+                      s_head s_tail s_fresh g_enq g_deq s_thr s_heap]; auto.
+    - congruence.
+    - rewrite !lset_length. assumption.
+    - intros t2 rt H. apply nth_lset_case in H. destruct H as [(-> & -> & Hlen)|(Hne & H)].
+      + exists (lgoto lt (QeCasSwing (pl nd) (pl tl))). split; [apply nth_lset_eq'; lia|].
+        eapply threl_mk; try exact Htr; try reflexivity.
+      + rewrite nth_lset_ne by congruence. auto.
+    - intros b H1 H2. unfold rset_next, set_next. rewrite rget_rset.
+      destruct (N.eqb_spec b (pa tl)) as [->|Hne].
+      + rewrite PB, hget_hset_eq, PE. reflexivity.
+      + rewrite hget_hset_ne; [apply R_heap0; assumption|].
+        intros E. apply Hne. destruct (G_own0 b H1) as (_ & _ & F). rewrite E in F. congruence.
+    - intros t2 th2 a H Ha. apply nth_lset_case in H. destruct H as [(-> & -> & _)|(Hne & H)]; [|eauto].
+      eapply G_R0; [exact Hth|]. unfold eff_rl in *. rewrite Hpc. exact Ha.
+    - intros t2 th2 H. apply nth_lset_case in H. destruct H as [(-> & -> & _)|(Hne & H)]; [cbn [rgoto rt_rl]|]; eauto.
+    - intros l Hl0. apply in_skipn_app in Hl0. destruct Hl0 as [Hl0|[<-|[]]]; [auto|]. rewrite NF. auto.
+    - intros t2 th2 nd2 H Hp. apply nth_lset_case in H. destruct H as [(-> & -> & _)|(Hne & H)]; [discriminate Hp|eauto].
+    - intros b H. unfold rset_next. rewrite rget_rset. destruct (b =? pa tl); [exact Hgnd|auto].
+    - intros t2 th2 p H Hp. apply nth_lset_case in H. destruct H as [(-> & -> & _)|(Hne & H)]; [|eauto].
+      apply (G_gpp0 t th p Hth). rewrite Hpc. exact Hp.
+    - intros t2 th2 p H Hp. apply nth_lset_case in H. destruct H as [(-> & -> & _)|(Hne & H)]; [|eauto].
+      cbn in Hp. injection Hp as <-. auto.
+    - intros t2 th2 p u uth H Hp Hu. apply nth_lset_case in H. apply nth_lset_case in Hu.
+      destruct H as [(-> & -> & _)|(Hne & H)]; destruct Hu as [(-> & -> & _)|(Hne2 & Hu)].
+      + unfold scan_cov. cbn. exact I.
+      + cbn in Hp. injection Hp as <-. eapply H_scan0; eauto.
+      + unfold scan_cov. cbn. exact I.
+      + eauto.
+    - intros t2 th2 H. apply nth_lset_case in H. destruct H as [(-> & -> & _)|(Hne & H)]; [exact I|eauto].
+  Qed.
+
+
+  (* ---- qpool_alloc: a free (possibly re-used) address becomes a new incarnation *)
+  Lemma gp_mono la' lid p : (forall l, l < r_lid c -> la' l = la l) -> r_lid c <= lid -> gp la (r_lid c) p -> gp la' lid p.
+  Proof.
+    intros H Hle [[A B]|(A & B & C & D)]; [left; auto|right]. repeat split; auto; try lia. rewrite H; auto.
+  Qed.
+
+  Lemma case_ReAlloc v : rt_pc th = ReAlloc v ->
+    SGoal (mkRS (rset (r_heap c) (match r_free c with x :: _ => x | [] => r_bump c end) (mkRN v pnull)) (r_head c) (r_tail c)
+                (match r_free c with _ :: f => f | [] => [] end)
+                (match r_free c with _ :: _ => r_bump c | [] => r_bump c + 1 end) (r_fmax c)
+                (lset_nth (r_thr c) t (rgoto th (ReLdTail (mkP (match r_free c with x :: _ => x | [] => r_bump c end) (r_lid c)))))
+                (r_lid c + 1) (aset (r_own c) (match r_free c with x :: _ => x | [] => r_bump c end) (r_lid c)) (rg_enq c) (rg_deq c)).
+  Proof.
+    intros Hpc. pose proof Hpcr as Hpcl. rewrite Hpc in Hpcl. cbn [pcr apc] in Hpcl.
+    set (a := match r_free c with x :: _ => x | [] => r_bump c end).
+    set (free' := match r_free c with _ :: f => f | [] => [] end).
+    set (bump' := match r_free c with _ :: _ => r_bump c | [] => r_bump c + 1 end).
+    set (l := r_lid c).
+    pose proof (G_bump _ _ _ _ _ R) as Hb1. pose proof (G_lid _ _ _ _ _ R) as Hl1.
+    (* facts about the address handed out *)
+    assert (Ha : (st a = SF \/ st a = SU) /\ a <> 0 /\ a < bump' /\ r_bump c <= bump' /\
+                 (forall x, In x free' <-> (In x (r_free c) /\ x <> a)) /\ NoDup free' /\
+                 (forall x, (x = 0 \/ bump' <= x) <-> (x <> a /\ (x = 0 \/ r_bump c <= x)))).
+    { subst a free' bump'. pose proof (G_Fnd _ _ _ _ _ R) as Hnd. destruct (r_free c) as [|x f] eqn:Ef.
+      - split; [right; apply (G_U _ _ _ _ _ R); right; lia|]. split; [lia|]. split; [lia|]. split; [lia|].
+        split; [intros y; split; [intros []|intros [[] _]]|]. split; [constructor|]. intros y; lia.
+      - assert (Hx : st x = SF) by (apply (G_F _ _ _ _ _ R); rewrite Ef; left; reflexivity).
+        assert (Hxu : ~ (x = 0 \/ r_bump c <= x)).
+        { intros H. apply (G_U _ _ _ _ _ R) in H. congruence. }
+        inversion Hnd as [|? ? Hni Hnd']; subst.
+        split; [left; exact Hx|]. split; [lia|]. split; [lia|]. split; [lia|].
+        split; [|split; [exact Hnd'|]].
+        + intros y; split; [intros H; split; [right; exact H|intros ->; contradiction]|intros [[->|H] Hne]; [congruence|exact H]].
+        + intros y; split; [intros H; split; [intros ->; tauto|exact H]|tauto]. }
+    destruct Ha as (Hsa & Ha0 & Hab & Hbb & Hfree & Hfnd & Hub).
+    set (st' := fun x => if x =? a then SA else st x).
+    set (la' := fun x => if x =? l then a else la x).
+    assert (Hst : forall x, x <> a -> st' x = st x).
+    { intros x H. unfold st'. destruct (N.eqb_spec x a); [contradiction|reflexivity]. }
+    assert (Hsta : st' a = SA) by (unfold st'; rewrite N.eqb_refl; reflexivity).
+    assert (Hla : forall x, x < r_lid c -> la' x = la x).
+    { intros x H. unfold la'. fold l in H. destruct (N.eqb_spec x l); [lia|reflexivity]. }
+    assert (Hnsu : forall x, x <> a -> st' x <> SU -> st x <> SU) by (intros x H; rewrite Hst by exact H; auto).
+    assert (Hlive : forall x, st x <> SF -> st x <> SU -> x <> a) by (intros x H1 H2 ->; destruct Hsa; contradiction).
+    assert (Habs : lstep s t = Some (mkLS (hset (s_heap s) (s_fresh s) (mkNode v 0)) (s_head s) (s_tail s) (s_fresh s + 1)
+                                          (lset_nth (s_thr s) t (lgoto lt (QeLdTail (s_fresh s)))) (g_enq s) (g_deq s), None)).
+    { absstep Hlt Hpcl. reflexivity. }
+    destruct (abs1 _ _ _ _ _ HI HT Habs) as (HI' & HT').
+    { intros th0 nd0 tl0 H0. rewrite Hlt in H0. injection H0 as <-. rewrite Hpcl. discriminate. }
+    eexists 1%nat, _, L. split; [eapply lrun1; eauto|split; [exact HI'|split; [exact HT'|]]].
+    exists la', st'. pose proof R as R0. destruct R. rewrite R_fresh0 in *. fold l.
+    constructor; cbn [r_head r_tail r_lid rg_enq rg_deq r_thr r_heap r_own r_free r_bump r_fmax
+                      s_head s_tail s_fresh g_enq g_deq s_thr s_heap]; auto.
+    - rewrite !lset_length. assumption.
+    - intros t2 rt H. apply nth_lset_case in H. destruct H as [(-> & -> & Hlen)|(Hne & H)].
+      + exists (lgoto lt (QeLdTail l)). split; [apply nth_lset_eq'; lia|].
+        eapply threl_mk; try exact Htr; try reflexivity.
+      + rewrite nth_lset_ne by congruence. auto.
+    - intros b H1 H2. rewrite aget_aset, rget_rset. destruct (N.eqb_spec b a) as [->|Hne].
+      + rewrite hget_hset_eq. reflexivity.
+      + rewrite Hst in H1, H2 by exact Hne. destruct (G_own0 b H1) as (Hlt2 & _).
+        rewrite hget_hset_ne by (fold l in Hlt2; lia). apply R_heap0; assumption.
+    - intros b. unfold st'. destruct (N.eqb_spec b a) as [->|Hne].
+      + split; [discriminate|]. intros H. apply Hub in H. tauto.
+      + rewrite G_U0, Hub. tauto.
+    - intros b. unfold st'. destruct (N.eqb_spec b a) as [->|Hne].
+      + split; [discriminate|]. intros H. apply Hfree in H. tauto.
+      + rewrite G_F0, Hfree. tauto.
+    - lia.
+    - lia.
+    - intros b H. rewrite aget_aset. destruct (N.eqb_spec b a) as [->|Hne].
+      + unfold la'. rewrite N.eqb_refl. repeat split; lia.
+      + destruct (G_own0 b (Hnsu b Hne H)) as (A & B & C). fold l in A. repeat split; try lia; auto. rewrite Hla; auto.
+    - intros t2 th2 b H Hb. apply nth_lset_case in H. destruct H as [(-> & -> & _)|(Hne & H)].
+      + assert (E : st b = SR t) by (eapply G_R0; [exact Hth|unfold eff_rl in *; rewrite Hpc; exact Hb]).
+        rewrite Hst; [exact E|]. apply Hlive; congruence.
+      + pose proof (G_R0 _ _ _ H Hb) as E. rewrite Hst; [exact E|]. apply Hlive; congruence.
+    - intros t2 th2 H. apply nth_lset_case in H. destruct H as [(-> & -> & _)|(Hne & H)]; [cbn [rgoto rt_rl]|]; eauto.
+    - intros l0 Hl0. destruct (G_chain0 l0 Hl0) as [A B].
+      assert (Hlt2 : l0 < l). { destruct (G_own0 (la l0) ltac:(congruence)) as (C & _). rewrite B in C. exact C. }
+      rewrite Hla by exact Hlt2. assert (la l0 <> a) by (apply Hlive; congruence).
+      rewrite Hst, aget_aset by assumption. destruct (N.eqb_spec (la l0) a); [contradiction|auto].
+    - intros t2 th2 nd H Hp. apply nth_lset_case in H. destruct H as [(-> & -> & _)|(Hne & H)].
+      + cbn in Hp. injection Hp as <-. cbn [pa pl]. rewrite aget_aset, N.eqb_refl. auto.
+      + destruct (G_priv0 _ _ _ H Hp) as [A B]. assert (pa nd <> a) by (apply Hlive; congruence).
+        rewrite Hst, aget_aset by assumption. destruct (N.eqb_spec (pa nd) a); [contradiction|auto].
+    - eapply gp_mono; eauto; lia.
+    - eapply gp_mono; eauto; lia.
+    - intros b H. rewrite rget_rset. destruct (N.eqb_spec b a) as [->|Hne]; [apply gp_pnull|].
+      eapply gp_mono; eauto; try lia.
+    - intros t2 th2 p H Hp. apply nth_lset_case in H. destruct H as [(-> & -> & _)|(Hne & H)].
+      + cbn in Hp. destruct Hp as [<-|[]]. right. cbn [pa pl]. unfold la'. rewrite N.eqb_refl. repeat split; lia.
+      + eapply gp_mono; eauto; lia.
+    - intros t2 th2 p H Hp. apply nth_lset_case in H. destruct H as [(-> & -> & _)|(Hne & H)]; [discriminate Hp|].
+      destruct (H_prot0 _ _ _ H Hp) as (A & B & C & D). assert (pa p <> a) by (apply Hlive; assumption).
+      rewrite Hst, aget_aset by assumption. destruct (N.eqb_spec (pa p) a); [contradiction|auto].
+    - intros t2 th2 p u uth H Hp Hu. apply nth_lset_case in H. destruct H as [(-> & -> & _)|(Hne & H)]; [discriminate Hp|].
+      apply nth_lset_case in Hu. destruct Hu as [(-> & -> & _)|(Hne2 & Hu)]; [unfold scan_cov; cbn; exact I|eauto].
+    - intros t2 th2 H. apply nth_lset_case in H. destruct H as [(-> & -> & _)|(Hne & H)]; [exact I|].
+      pose proof (X_pc0 _ _ H) as Hx2. unfold xpc in *. destruct (rt_pc th2); auto.
+      rewrite Hst; [exact Hx2|]. apply Hlive; congruence.
+  Qed.
+
 End Step.
+
+(* ------------------------------------------------------------------ the simulation *)
+Lemma sim_step c s L t c' r : Inv s L -> TInv s L -> Sim c s L -> rstep c t = Some (c', r) ->
+  exists k s' L', lrun s (repeat t k) = s' /\ Inv s' L' /\ TInv s' L' /\ Sim c' s' L'.
+Proof.
+  intros HI HT (la & st & R) Hstep. unfold rstep in Hstep.
+  destruct (nth_error (r_thr c) t) as [th|] eqn:Hth; [|discriminate].
+  destruct (R_thr _ _ _ _ _ R t th Hth) as (lt & Hlt & Htr).
+  cbv zeta in Hstep.
+  destruct (rt_pc th) eqn:Hpc.
+  - destruct (rt_ops th) as [|o rest] eqn:Hops; [discriminate|]. injection Hstep as <- <-. eapply case_RIdle; eauto.
+  - injection Hstep as <- <-. eapply case_ReAlloc; eauto.
+  - injection Hstep as <- <-. eapply case_ReLdTail; eauto.
+  - injection Hstep as <- <-. eapply case_ReHz; eauto.
+  - pose proof (case_ReChkTail c s L la st t th lt HI HT R Hth Hlt Htr nd tl Hpc) as H.
+    destruct (pa tl =? pa (r_tail c)); injection Hstep as <- <-; exact H.
+  - pose proof (case_ReLdNext c s L la st t th lt HI HT R Hth Hlt Htr nd tl Hpc) as H.
+    destruct (pa (rn_next (rget (r_heap c) (pa tl))) =? 0); injection Hstep as <- <-; exact H.
+  - injection Hstep as <- <-. eapply case_ReCasHelp; eauto.
+  - destruct (N.eqb_spec (pa (rn_next (rget (r_heap c) (pa tl)))) 0) as [E|E]; injection Hstep as <- <-.
+    + eapply case_ReCasLink_ok; eauto.
+    + eapply case_ReCasLink_fail; eauto. apply N.eqb_neq. exact E.
+  - injection Hstep as <- <-. eapply case_ReCasSwing; eauto.
+  - injection Hstep as <- <-. eapply case_ReHzClr; eauto.
+  - injection Hstep as <- <-. eapply case_RdLdHead; eauto.
+  - injection Hstep as <- <-. eapply case_RdHz0; eauto.
+  - pose proof (case_RdChkHead c s L la st t th lt HI HT R Hth Hlt Htr hd Hpc) as H.
+    destruct (pa hd =? pa (r_head c)); injection Hstep as <- <-; exact H.
+  - injection Hstep as <- <-. eapply case_RdLdTail; eauto.
+  - injection Hstep as <- <-. eapply case_RdLdNext; eauto.
+  - destruct (N.eqb_spec (pa nx) 0) as [E|E]; [injection Hstep as <- <-; eapply case_RdHz1_null; eauto|].
+    destruct (N.eqb_spec (pa hd) (pa tl)) as [F|F]; injection Hstep as <- <-.
+    + eapply case_RdHz1_help; eauto.
+    + eapply case_RdHz1_val; eauto.
+  - injection Hstep as <- <-. eapply case_RdCasHelp; eauto.
+  - injection Hstep as <- <-. eapply case_RdLdVal; eauto.
+  - destruct (N.eqb_spec (pa (r_head c)) (pa hd)) as [E|E]; injection Hstep as <- <-.
+    + eapply case_RdCasHead_ok; eauto.
+    + eapply case_RdCasHead_fail; eauto. apply N.eqb_neq. exact E.
+  - injection Hstep as <- <-. eapply case_RdRel; eauto.
+  - injection Hstep as <- <-. eapply case_RdClr0; eauto.
+  - destruct (Nat.eqb_spec (length (rt_rl th)) (r_fmax c)) as [E|E]; injection Hstep as <- <-.
+    + eapply case_RdClr1_scan; eauto.
+    + eapply case_RdClr1_fin; eauto.
+  - destruct (Nat.ltb_spec i (2 * length (r_thr c))) as [E|E]; injection Hstep as <- <-.
+    + eapply case_RdScan_slot; eauto.
+    + eapply case_RdScan_sort; eauto.
+  - assert (Hfin : forall c'' r'',
+              (if Nat.eqb (length kept) (r_fmax c) then Some (rwith_thr c t (rgoto th (RdScan p 0 [])), None)
+               else Some (rwith_thr c t (set_rl (rfinish th (LPtr p)) kept), Some (LPtr p))) = Some (c'', r'') ->
+              todo = [] -> exists k s' L', lrun s (repeat t k) = s' /\ Inv s' L' /\ TInv s' L' /\ Sim c'' s' L').
+    { intros c'' r'' H ->. destruct (Nat.eqb_spec (length kept) (r_fmax c)) as [E|E]; injection H as <- <-.
+      - eapply case_RdFree_again; eauto.
+      - eapply case_RdFree_fin; eauto. }
+    destruct todo as [|a todo']; [eapply Hfin; eauto|].
+    destruct (N.eqb_spec a 0) as [Ez|Ez].
+    { exfalso. eapply rdfree_todo_nz; eauto. }
+    destruct (binary_search srt a (N.of_nat (length srt))) as [[|]|] eqn:Eb.
+    + injection Hstep as <- <-. eapply case_RdFree_keep; eauto. unfold keepf. rewrite Eb. reflexivity.
+    + injection Hstep as <- <-. eapply case_RdFree_free; eauto. unfold keepf. rewrite Eb. reflexivity.
+    + injection Hstep as <- <-. eapply case_RdFree_keep; eauto. unfold keepf. rewrite Eb. reflexivity.
+  - injection Hstep as <- <-. eapply case_Rm; eauto; rewrite ?Hpc; reflexivity.
+  - injection Hstep as <- <-. eapply case_Rm; eauto; rewrite ?Hpc; reflexivity.
+  - injection Hstep as <- <-. eapply case_Rm; eauto; rewrite ?Hpc; reflexivity.
+  - injection Hstep as <- <-. eapply case_Rm; eauto; rewrite ?Hpc; reflexivity.
+  - destruct (pa hd =? pa (r_head c)); [destruct ((pa hd =? pa tl) && (pa nx =? 0))|]; injection Hstep as <- <-.
+    + eapply case_Rm_fin; eauto; rewrite ?Hpc; reflexivity.
+    + eapply case_Rm_fin; eauto; rewrite ?Hpc; reflexivity.
+    + eapply case_Rm; eauto; rewrite ?Hpc; reflexivity.
+Qed.
+
+Lemma sim_run_gen sched : forall c s L, Inv s L -> TInv s L -> Sim c s L ->
+  exists asched L', Inv (lrun s asched) L' /\ TInv (lrun s asched) L' /\ Sim (rrun c sched) (lrun s asched) L'.
+Proof.
+  induction sched as [|t sched IH]; intros c s L HI HT HS.
+  - exists [], L. auto.
+  - cbn [rrun fold_left]. change (fold_left rstep' sched (rstep' c t)) with (rrun (rstep' c t) sched).
+    unfold rstep'. destruct (rstep c t) as [[c' r]|] eqn:Hs.
+    + destruct (sim_step _ _ _ _ _ _ HI HT HS Hs) as (k & s' & L' & E & HI' & HT' & HS').
+      destruct (IH c' s' L' HI' HT' HS') as (as' & L'' & A & B & C).
+      exists (repeat t k ++ as'), L''. rewrite lrun_app, E. auto.
+    + apply (IH c s L); auto.
+Qed.
+
+Theorem sim_run fmax progs sched :
+  exists asched L, Inv (lrun (linit (aprogs progs)) asched) L /\ TInv (lrun (linit (aprogs progs)) asched) L /\
+                   Sim (rrun (rinit fmax progs) sched) (lrun (linit (aprogs progs)) asched) L.
+Proof.
+  apply sim_run_gen with (L := [1]).
+  - apply inv_init.
+  - apply tinv_init.
+  - eexists _, _. apply rel_init.
+Qed.
+
+(* ------------------------------------------------------------------ theorems about the reclaiming machine *)
+Theorem lfqr_refines_lfq fmax progs sched :
+  exists asched,
+    let c := rrun (rinit fmax progs) sched in
+    let s := lrun (linit (aprogs progs)) asched in
+    rg_enq c = g_enq s /\ rg_deq c = g_deq s /\ length (r_thr c) = length (s_thr s) /\
+    forall t rt, nth_error (r_thr c) t = Some rt ->
+      exists lt, nth_error (s_thr s) t = Some lt /\ lt_out lt = filter notemp_out (rt_out rt).
+Proof.
+  destruct (sim_run fmax progs sched) as (asched & L & _ & _ & (la & st & R)). exists asched. cbv zeta.
+  destruct R. repeat split; auto.
+  intros t rt H. destruct (R_thr0 t rt H) as (lt & Hl & (_ & _ & _ & Ho)). eauto.
+Qed.
+
+Theorem lfqr_conservation fmax progs sched :
+  let c := rrun (rinit fmax progs) sched in
+  map snd (rg_deq c) = firstn (length (rg_deq c)) (map snd (rg_enq c)) /\
+  (length (rg_deq c) <= length (rg_enq c))%nat.
+Proof.
+  intros c. destruct (lfqr_refines_lfq fmax progs sched) as (asched & E1 & E2 & _). fold c in E1, E2.
+  rewrite E1, E2. apply lfq_conservation_partial.
+Qed.
+
+Lemma enq_vals_filter ops : enq_vals (filter notemp ops) = enq_vals ops.
+Proof. induction ops as [|[v| |] ops IH]; cbn [filter notemp enq_vals]; rewrite ?IH; reflexivity. Qed.
+
+Lemma deq_results_filter out : deq_results (filter notemp_out out) = deq_results out.
+Proof.
+  induction out as [|[o r] out IH]; [reflexivity|]. cbn [filter]. unfold notemp_out at 1. cbn [fst].
+  destruct o; cbn [notemp deq_results]; rewrite ?IH; reflexivity.
+Qed.
+
+Theorem lfqr_per_producer_fifo fmax progs sched :
+  let c := rrun (rinit fmax progs) sched in
+  forall p, exists k,
+    map snd (filter (fun x => Nat.eqb (fst x) p) (rg_enq c)) = firstn k (enq_vals (nth p progs [])).
+Proof.
+  intros c p. destruct (lfqr_refines_lfq fmax progs sched) as (asched & E1 & _). fold c in E1. rewrite E1.
+  destruct (lfq_per_producer_fifo (aprogs progs) asched p) as [k Hk]. exists k. rewrite Hk.
+  unfold aprogs. change (@nil lop) with (filter notemp []) at 1. rewrite map_nth, enq_vals_filter. reflexivity.
+Qed.
+
+Theorem lfqr_consumer_results fmax progs sched :
+  (forall ops v, In ops progs -> In (LEnq v) ops -> v <> 0) ->
+  let c := rrun (rinit fmax progs) sched in
+  forall t rt, nth_error (r_thr c) t = Some rt ->
+    exists pending,
+      deq_results (rt_out rt) ++ pending = map snd (filter (fun x => Nat.eqb (fst x) t) (rg_deq c)) /\
+      (length pending <= 1)%nat.
+Proof.
+  intros Hnz c t rt Hrt. destruct (lfqr_refines_lfq fmax progs sched) as (asched & _ & E2 & _ & Ht). fold c in E2, Ht.
+  destruct (Ht t rt Hrt) as (lt & Hl & Ho).
+  assert (Hnz' : forall ops v, In ops (aprogs progs) -> In (LEnq v) ops -> v <> 0).
+  { intros ops v Hin Hv. unfold aprogs in Hin. apply in_map_iff in Hin. destruct Hin as (ops0 & <- & Hin).
+    apply filter_In in Hv. eapply Hnz; [exact Hin|apply Hv]. }
+  destruct (lfq_consumer_results (aprogs progs) asched Hnz' t lt Hl) as (pending & A & B).
+  exists pending. rewrite E2, <- A, Ho, deq_results_filter. auto.
+Qed.
+
+(* every reachable state satisfies the invariants behind the simulation *)
+Lemma reach_rel fmax progs sched :
+  exists s L la st, Inv s L /\ TInv s L /\ Rel (rrun (rinit fmax progs) sched) s L la st.
+Proof. destruct (sim_run fmax progs sched) as (asched & L & A & B & (la & st & R)). eauto 8. Qed.
+
+Lemma prot_live c s L la st t th p : Rel c s L la st -> nth_error (r_thr c) t = Some th -> prot0 (rt_pc th) = Some p ->
+  live c p /\ rt_hz0 th = pa p.
+Proof.
+  intros R Hth Hp. destruct (H_prot _ _ _ _ _ R t th p Hth Hp) as (A & B & C & D). split; [|exact A].
+  assert (Hu : ~ (pa p = 0 \/ r_bump c <= pa p)) by (intros H; apply (G_U _ _ _ _ _ R) in H; contradiction).
+  unfold live. repeat split; auto; try lia. intros Hin. apply (G_F _ _ _ _ _ R) in Hin. contradiction.
+Qed.
+
+(* no thread loads `next` of, or CASes on `next` of, a node that is free or has been recycled since the thread validated its hazard
+   slot; and the slot names the node all the time *)
+Theorem lfqr_no_use_after_free fmax progs sched :
+  let c := rrun (rinit fmax progs) sched in
+  forall t th p, nth_error (r_thr c) t = Some th -> deref_next (rt_pc th) = Some p -> live c p /\ rt_hz0 th = pa p.
+Proof.
+  intros c t th p Hth Hd. destruct (reach_rel fmax progs sched) as (s & L & la & st & _ & _ & R). fold c in R.
+  eapply prot_live; eauto. destruct (rt_pc th); cbn in *; try discriminate; exact Hd.
+Qed.
+
+(* a CAS on q->head / q->tail whose addresses compare equal compares the SAME incarnation; the expected node is live *)
+Theorem lfqr_no_aba fmax progs sched :
+  let c := rrun (rinit fmax progs) sched in
+  forall t th w p, nth_error (r_thr c) t = Some th -> cas_expect (rt_pc th) = Some (w, p) ->
+    live c p /\ rt_hz0 th = pa p /\ (pa (word_of c w) = pa p -> pl (word_of c w) = pl p).
+Proof.
+  intros c t th w p Hth Hc. destruct (reach_rel fmax progs sched) as (s & L & la & st & HI & HT & R). fold c in R.
+  assert (Hp : prot0 (rt_pc th) = Some p).
+  { destruct (rt_pc th); cbn in *; try discriminate; injection Hc as _ <-; reflexivity. }
+  destruct (prot_live _ _ _ _ _ _ _ _ R Hth Hp) as (A & B). split; [exact A|split; [exact B|]].
+  intros E. destruct A as (_ & _ & _ & Ho).
+  destruct w; cbn [word_of] in *.
+  - destruct (head_live _ _ _ _ _ HI R) as (_ & H & _). rewrite <- H, E. exact Ho.
+  - destruct (tail_live _ _ _ _ _ HI HT R) as (_ & H & _). rewrite <- H, E. exact Ho.
+Qed.
+
+(* q->head and q->tail always point to allocated nodes of the incarnation they mean (tail never falls behind head) *)
+Theorem lfqr_head_tail_live fmax progs sched :
+  let c := rrun (rinit fmax progs) sched in live c (r_head c) /\ live c (r_tail c).
+Proof.
+  intros c. destruct (reach_rel fmax progs sched) as (s & L & la & st & HI & HT & R). fold c in R.
+  destruct (head_live _ _ _ _ _ HI R) as (A1 & A2 & A3). destruct (tail_live _ _ _ _ _ HI HT R) as (B1 & B2 & B3).
+  assert (Hl : forall a, st a = SA -> a <> 0 /\ ~ In a (r_free c) /\ a < r_bump c).
+  { intros a Ha. assert (Hu : ~ (a = 0 \/ r_bump c <= a)) by (intros H; apply (G_U _ _ _ _ _ R) in H; congruence).
+    repeat split; try lia. intros Hin. apply (G_F _ _ _ _ _ R) in Hin. congruence. }
+  unfold live. destruct (Hl _ A1) as (? & ? & ?). destruct (Hl _ B1) as (? & ? & ?). auto 10.
+Qed.
+
+(* the pool never hands out an address that is still in use: free list duplicate-free, disjoint from every retired list *)
+Theorem lfqr_pool_sound fmax progs sched :
+  let c := rrun (rinit fmax progs) sched in
+  NoDup (r_free c) /\ forall t th a, nth_error (r_thr c) t = Some th -> In a (eff_rl th) -> ~ In a (r_free c).
+Proof.
+  intros c. destruct (reach_rel fmax progs sched) as (s & L & la & st & HI & HT & R). fold c in R.
+  split; [apply (G_Fnd _ _ _ _ _ R)|]. intros t th a Hth Ha Hin.
+  apply (G_F _ _ _ _ _ R) in Hin. rewrite (G_R _ _ _ _ _ R t th a Hth Ha) in Hin. discriminate.
+Qed.
+
+(* the value read of qlfqueue_dequeue is safe whenever it can matter: if q->head still is the validated head, next_ptr is live *)
+Theorem lfqr_value_read_live_when_head_unchanged fmax progs sched :
+  let c := rrun (rinit fmax progs) sched in
+  forall t th hd nx, nth_error (r_thr c) t = Some th -> rt_pc th = RdLdVal hd nx -> pa (r_head c) = pa hd -> live c nx.
+Proof.
+  intros c t th hd nx Hth Hpc Ea. destruct (reach_rel fmax progs sched) as (s & L & la & st & HI & HT & R). fold c in R.
+  destruct (R_thr _ _ _ _ _ R t th Hth) as (lt & Hlt & (Hpcl & _)). rewrite Hpc in Hpcl. cbn [pcr apc] in Hpcl.
+  assert (Hp : prot0 (rt_pc th) = Some hd) by (rewrite Hpc; reflexivity).
+  destruct (H_prot _ _ _ _ _ R t th hd Hth Hp) as (_ & PB & _).
+  destruct (head_live _ _ _ _ _ HI R) as (_ & TB & _).
+  assert (El : pl (r_head c) = pl hd) by (rewrite <- TB, <- PB, Ea; reflexivity).
+  pose proof HI as (G & TO & _). pose proof (TO t lt Hlt) as Hq. rewrite Hpcl in Hq. cbn [pcinv] in Hq.
+  destruct Hq as (_ & _ & Hnz & Hn). rewrite <- El, <- (R_head _ _ _ _ _ R) in Hn.
+  destruct (head_succ _ _ _ _ _ _ _ G _ Hn Hnz) as [H1 _]. rewrite (R_deq _ _ _ _ _ R) in H1.
+  assert (Hin : In (pl nx) (skipn (length (rg_deq c)) L)) by (eapply nth_in_skipn; [exact H1|lia]).
+  destruct (G_chain _ _ _ _ _ R _ Hin) as [A B].
+  assert (Hg : gp la (r_lid c) nx) by (apply (G_gpp _ _ _ _ _ R t th nx Hth); rewrite Hpc; right; left; reflexivity).
+  destruct (gp_nonnull _ _ _ Hg Hnz) as [C D]. rewrite D in A, B.
+  assert (Hu : ~ (pa nx = 0 \/ r_bump c <= pa nx)) by (intros H; apply (G_U _ _ _ _ _ R) in H; congruence).
+  unfold live. repeat split; auto; try lia. intros Hf. apply (G_F _ _ _ _ _ R) in Hf. congruence.
+Qed.
+
+(* ------------------------------------------------------------------ what the code does NOT guarantee (witness schedules)
+   freelist_max = 10 (three workers + 7), thread 0 = the idle controller, thread 1 = A, thread 2 = B.
+   B enqueues 12 elements; A begins an operation and is stopped; B dequeues 10 elements: its 10th hazardous_release_node runs the
+   scan, which frees every retired node that A's slots do not name; A continues.                                              *)
+Definition w_enqs : list lop := map (fun v => LEnq v) [101;102;103;104;105;106;107;108;109;110;111;112].
+Definition w_deqs : list lop := repeat LDeq 10.
+Definition w_sched (a_steps : nat) : list nat := repeat 2%nat 108 ++ repeat 1%nat a_steps ++ repeat 2%nat 200.
+
+(* qlfqueue_dequeue: A stands between `next_ptr = head->next` and hazardous_ptr(1, next_ptr) while next_ptr is dequeued, retired and
+   freed; then `p = next_ptr->value` loads from a node that is in the pool's free list.  (The following CAS on q->head fails, see
+   lfqr_value_read_live_when_head_unchanged / lfqr_consumer_results: the stale value is never returned.)                       *)
+Theorem lfqr_value_read_uaf_refuted :
+  exists fmax progs sched t th hd nx,
+    let c := rrun (rinit fmax progs) sched in
+    nth_error (r_thr c) t = Some th /\ rt_pc th = RdLdVal hd nx /\ rt_hz1 th = pa nx /\ In (pa nx) (r_free c).
+Proof.
+  exists 10%nat, [[]; [LDeq]; w_enqs ++ w_deqs], (w_sched 6 ++ [1%nat]), 1%nat.
+  eexists. eexists. eexists. cbv zeta. vm_compute. repeat split. cbn. tauto.
+Qed.
+
+(* qlfqueue_empty uses no hazard pointer: `next = head->next` loads from a node that has been freed meanwhile *)
+Theorem lfqr_empty_uaf_refuted :
+  exists fmax progs sched t th hd tl g,
+    let c := rrun (rinit fmax progs) sched in
+    nth_error (r_thr c) t = Some th /\ rt_pc th = RmLdNext hd tl g /\ In (pa hd) (r_free c).
+Proof.
+  exists 10%nat, [[]; [LEmp]; w_enqs ++ w_deqs], (w_sched 3), 1%nat.
+  eexists. eexists. eexists. eexists. cbv zeta. vm_compute. repeat split. cbn. tauto.
+Qed.
+
+(* ------------------------------------------------------------------ non-vacuity *)
+(* a run in which the scan frees nodes, addresses are handed out again, and a validation succeeds on a re-used address while the
+   thread's ghost tag was that of the old incarnation (the 4-step case of the simulation) *)
+Definition ex_r_progs : list (list lop) := [[]; [LEnq 7; LEnq 8]; w_enqs ++ w_deqs ++ [LEnq 201; LEnq 202; LDeq; LDeq]].
+Definition ex_r_sched : list nat := repeat 2%nat 108 ++ repeat 1%nat 3 ++ repeat 2%nat 400 ++ repeat 1%nat 40.
+Example ex_reuse :
+  let c := rrun (rinit 10 ex_r_progs) ex_r_sched in
+  r_bump c = 15 /\ r_lid c = 18 /\ length (rg_enq c) = 16%nat /\ length (rg_deq c) = 12%nat /\
+  map snd (rg_deq c) = firstn 12 (map snd (rg_enq c)) /\
+  r_tail c = mkP 8 17 (* address 8, handed out a second time, is the last node *) /\ r_free c = [7; 6; 5; 4; 3; 2; 1].
+Proof. vm_compute. repeat split; reflexivity. Qed.
+
+Example ex_protected_kept :
+  (* A (thread 1) validated the dummy node 1 as head and is stopped; B's scan keeps exactly that node *)
+  let c := rrun (rinit 10 [[]; [LDeq]; w_enqs ++ w_deqs]) (w_sched 6) in
+  match nth_error (r_thr c) 1, nth_error (r_thr c) 2 with
+  | Some a, Some b => rt_hz0 a = 1 /\ rt_rl b = [1] /\ ~ In 1 (r_free c) /\ length (r_free c) = 9%nat
+  | _, _ => False
+  end.
+Proof. vm_compute. repeat split; try reflexivity. intros H. repeat (destruct H as [H|H]; [discriminate H|]). exact H. Qed.
+
